@@ -52,6 +52,7 @@ type Run struct {
 
 	sched    *Sched
 	mapOrder bool
+	SimProcs int // simulated GOMAXPROCS seen by instrumented code (0 = real)
 	NonCanon map[string]int
 }
 
@@ -260,4 +261,24 @@ func (r *Run) Guard(f func()) {
 		}
 	}()
 	f()
+}
+
+var (
+	resetMu sync.Mutex
+	resets  []func()
+)
+
+// RegisterReset registers a function that empties process-wide caches of an
+// instrumented package (generated by the instrumenter). All of them run
+// before every simulated run so that a run is a function of its tape alone;
+// how the caches fill up *during* the run is part of the run.
+func RegisterReset(f func()) { resetMu.Lock(); resets = append(resets, f); resetMu.Unlock() }
+
+func resetProcessState() {
+	resetMu.Lock()
+	fs := resets
+	resetMu.Unlock()
+	for _, f := range fs {
+		f()
+	}
 }
